@@ -274,6 +274,45 @@ def _boss_facts(mod, cls, inc_text, denom_attr, fit_fact, what):
     return txt
 
 
+def _cboss_weight(mod):
+    """ContractableBOSS.fit: the weight a member votes with, as a function of its train accuracy"""
+    from fractions import Fraction
+    fit = _find(mod, "ContractableBOSS.fit")
+    base = _canon("weight = math.pow(boss.accuracy, 4)")
+    hits = []
+    for node in ast.walk(fit):
+        for field in ("body", "orelse"):
+            lst = getattr(node, field, None)
+            if isinstance(lst, list):
+                for i, st in enumerate(lst):
+                    if isinstance(st, ast.stmt) and _u(st) == base:
+                        hits.append((lst, i))
+    if len(hits) != 1:
+        _fail("ContractableBOSS.fit: `weight = math.pow(boss.accuracy, 4)` expected exactly once", fit)
+    lst, i = hits[0]
+    txt = "let w := acc * acc * acc * acc in "
+    nxt = lst[i + 1] if i + 1 < len(lst) else None
+    floor = None
+    if isinstance(nxt, ast.If) and _u(nxt.test) == "weight == 0":
+        a = _assign1(nxt.body[0]) if len(nxt.body) == 1 and not nxt.orelse else None
+        if not (a and a[0] == "weight" and isinstance(a[1], ast.Constant) and isinstance(a[1].value, float)
+                and a[1].value > 0):
+            _fail("ContractableBOSS.fit: the replacement of a zero weight must be a positive constant", nxt)
+        floor = Fraction(repr(a[1].value))
+    # every other statement that touches `weight` or self.weights must be one of these
+    allowed = _canon(["self.weights = []", "self.weights.append(weight)", "self.weights[lowest_acc_idx] = weight",
+                      "self.weight_sum = np.sum(self.weights)"]) + [base]
+    for st in ast.walk(fit):
+        if isinstance(st, (ast.Assign, ast.AugAssign, ast.Expr)):
+            t = _u(st)
+            if ("self.weights" in t or t.startswith("weight ") or t.startswith("weight=")) and t not in allowed \
+                    and not (nxt is not None and floor is not None and st in nxt.body):
+                _fail("ContractableBOSS.fit: unexpected statement about the weights", st)
+    if floor is None:
+        return txt + "w"
+    return txt + "if Qeq_bool w 0 then (%d # %d) else w" % (floor.numerator, floor.denominator)
+
+
 def _iboss(mod):
     fn = _find(mod, "IndividualBOSS.predict_proba")
     want = ["preds = self.predict(X)", "dists = np.zeros((X.shape[0], self.num_classes))",
@@ -497,6 +536,7 @@ def translate(repo):
     cboss_c = _boss_facts(cboss, "ContractableBOSS", "self.weights[n]", "weight_sum",
                           "self.weight_sum = np.sum(self.weights)", "ContractableBOSS")
     iboss_c = _iboss(boss)
+    cboss_w = _cboss_weight(cboss)
     _base(base)
     feat = _transform_facts(fbase)
     ivs = _get_intervals_facts(fbase)
@@ -513,6 +553,9 @@ def translate(repo):
            "Definition gen_rise_combine (k : nat) (rows : list (list Q)) : list Q := %s." % rise_c,
            "Definition gen_colens_combine (k : nat) (rows : list (list Q)) : list Q := %s." % col_c,
            "Definition gen_tsfreg_combine (preds : list Q) : Q := %s." % reg_c,
+           "",
+           "(* ContractableBOSS.fit: the weight of a member with leave-one-out train accuracy `acc` *)",
+           "Definition gen_cboss_weight (acc : Q) : Q := %s." % cboss_w,
            "",
            "Section GenLabels.",
            "  Variable L : Type.",
